@@ -163,11 +163,15 @@ func VfC06Outbound() {
 	cfg.FriendsByIP[friend] = config.Friend{Name: "f", IP: friend}
 	inst := &vfRInst{id: id, cfg: cfg, builder: frame.NewFrameBuilder(), tunDev: &tun.Device{SendFrame: make(chan frame.Frame, 1)}}
 	inst.st = state.VfNewState(&state.VfInstance{Id: id, Cfg: cfg}, &m.PublicAddress{IP: peer})
-	if vf.Bool() {
+	encSet := vf.Bool()
+	if encSet {
 		enc := state.VfEncSession(vf.NewAEAD(43), vf.NewAEAD(44))
 		enc.VfSeqStateEnc()
 		inst.st.VfPeerSession(peer).SetEncryptionSession(enc)
 	}
+	mtu := vf.Int() // the peer's tun MTU learned in an earlier hello (0 = never), whether or not keys are still there
+	vf.Assume(mtu >= 0 && mtu <= 65535)
+	inst.st.VfPeerSession(peer).SetTunMTU(mtu)
 	r := &Router{instance: inst, connStates: make(map[connStateKey]*connStateEntry)}
 	r.HelloPing = NewHelloPingHandler(r)
 	traffic := vf.Bool()
@@ -183,6 +187,17 @@ func VfC06Outbound() {
 	r.handleTunPacket(vfW, pktBuf)
 
 	entered := len(vfRouted) + len(vfHelloDst)
+	// C14: a packet that passes every check while no keys exist for its destination starts a key setup
+	if n >= 44 && pkt[0]>>4 == 6 && traffic && vf.Count("icmp.error") == 0 && vf.Count("icmp.toobig") == 0 {
+		var s16, d16 [16]byte
+		copy(s16[:], pkt[8:24])
+		copy(d16[:], pkt[24:40])
+		ps, pd := netip.AddrFrom16(s16), netip.AddrFrom16(d16)
+		if ps == own && d16[0] == 0xfd && pd != config.DefaultAPIAddress && !(pd == peer && encSet) {
+			vf.Assert(len(vfHelloDst) == 1 && vfHelloDst[0] == pd && len(vfRouted) == 0, "admitted-packet-without-keys-starts-no-setup")
+			vf.Reach("setup-started")
+		}
+	}
 	if entered > 0 {
 		vf.Assert(n >= 44 && pkt[0]>>4 == 6, "non-ipv6-or-short-packet-entered-mesh")
 		var is, idst [16]byte
